@@ -14,6 +14,7 @@ import (
 	"strconv"
 	"strings"
 	"sync"
+	"sync/atomic"
 	"syscall"
 
 	"github.com/brutella/hc"
@@ -219,6 +220,17 @@ func storageFamily(a *Args) error {
 	if err != nil {
 		return err
 	}
+	// the pseudo case "concurrent writers" (replayed alone when a violation of it is confirmed)
+	concOnly := false
+	words := behs[:0:0]
+	for _, b := range behs {
+		if len(b.Steps) == 1 && strings.Contains(string(b.Steps[0]), "ConcurrentSets") {
+			concOnly = true
+			continue
+		}
+		words = append(words, b)
+	}
+	behs = words
 	var mu sync.Mutex
 	var firstErr error
 	parallel(len(behs), 16, func(i int) {
@@ -236,8 +248,62 @@ func storageFamily(a *Args) error {
 	if firstErr != nil {
 		return firstErr
 	}
-	fmt.Printf("storage: %d histories replayed on real files, %d trace lines\n", len(behs), tr.n)
+	// several writers of one key at the same time (stores opened separately on one directory, as separate processes
+	// would): every Set succeeds and the key ends up with one of the values in full
+	rounds := 40
+	if a.Tier == "thorough" {
+		rounds = 400
+	}
+	var conc []J
+	for r := 0; r < rounds && (len(behs) > 1 || concOnly); r++ {
+		conc = append(conc, concurrentSets(a.Seed, r))
+	}
+	tr.Block(conc)
+	fmt.Printf("storage: %d histories replayed on real files, %d rounds of concurrent writers, %d trace lines\n", len(behs), len(conc), tr.n)
 	return tr.Close()
+}
+
+func concurrentSets(seed int64, r int) J {
+	dir := mkTempDir("hcv-conc")
+	defer os.RemoveAll(dir)
+	rng := rngFor(seed, 7000000+r)
+	writers := 2 + rng.Intn(6)
+	vals := make([][]byte, writers)
+	for i := range vals {
+		vals[i] = make([]byte, []int{1, 5, 40, 4096, 70000}[rng.Intn(5)]+i)
+		rng.Read(vals[i])
+	}
+	var wg sync.WaitGroup
+	var nerr int64
+	start := make(chan struct{})
+	for i := 0; i < writers; i++ {
+		wg.Add(1)
+		go func(i int) {
+			defer wg.Done()
+			st, err := util.NewFileStorage(dir)
+			if err != nil {
+				atomic.AddInt64(&nerr, 1)
+				return
+			}
+			<-start
+			for k := 0; k < 5; k++ {
+				if err := st.Set("shared", vals[i]); err != nil {
+					atomic.AddInt64(&nerr, 1)
+				}
+			}
+		}(i)
+	}
+	close(start)
+	wg.Wait()
+	final := "other"
+	if got, ok := readAll(dir)["shared"]; ok {
+		for _, v := range vals {
+			if bytes.Equal(got, v) {
+				final = "one"
+			}
+		}
+	}
+	return J{"ev": "conc", "case": 3000000, "i": r, "op": "ConcurrentSets", "writers": writers, "errs": nerr, "final": final}
 }
 
 // ---------------------------------------------------------------- crash (C19)
